@@ -152,6 +152,10 @@ pub struct PlaceObs {
     /// installation under test)
     #[serde(default)]
     pub sibling_after: Option<(u64, u64)>,
+    /// the pages of the target were made read+execute again between the earlier installations
+    /// and the installation under test
+    #[serde(default)]
+    pub resealed: bool,
     #[serde(default)]
     pub mprotect_fault_hit: bool,
     /// value returned to the call made from the flush hook (None = no such call was made)
@@ -425,6 +429,19 @@ fn execute_inner(c: &PlaceCase) -> PlaceObs {
     }
     // ---- install
     crate::worker::phase("install");
+    // the owner of a synthetic target's pages makes them read+execute again after the earlier
+    // installations (what a code generator does when it has finished emitting): whatever the
+    // injector believes about those pages from before is no longer true
+    if let TargetSel::Synth { page, .. } = &c.target {
+        if (o.sibling_faked || !c.prior.is_empty()) && (page >> 58) % 2 == 0 {
+            let base = target.addr & !0xFFF;
+            unsafe { ip::sys_mprotect(base, PAGE, libc::PROT_READ | libc::PROT_EXEC) };
+            if (target.addr + 31) & !0xFFF != base {
+                unsafe { ip::sys_mprotect(base + PAGE, PAGE, libc::PROT_READ | libc::PROT_EXEC) };
+            }
+            o.resealed = true;
+        }
+    }
     if c.mprotect_fail_at > 0 {
         ip::MPROTECT_FAIL_AT.store(ip::MPROTECT_CALLS.load(SeqCst) + c.mprotect_fail_at as i64, SeqCst);
     }
